@@ -6,6 +6,12 @@ open Emboss.Lr1
 #print axioms C08_complete
 #print axioms C08_unambiguous
 #print axioms C08_accepts_iff
-#print axioms C08_terminates_partial
+#print axioms C08_terminates
+#print axioms C08_valid_not_terminating_counterexample
+#print axioms C08_decides
+#print axioms C08_terminates_accepting
+#print axioms C08_gen_valid_partial
+#print axioms C08_gen_closure
+#print axioms C08_gen_goto
 #print axioms C08_error_position
 #print axioms C08_error_position_unproductive_counterexample
